@@ -98,7 +98,8 @@ class Scenario:
         if kind == "accept":
             if len(self.socks) >= self.max_socks or not nw.world.listeners or nw.world.listeners[0].closed:
                 return False
-            fs = nw.accept(ip=f"10.0.0.{2 + len(self.socks)}")
+            k = len(self.socks)
+            fs = nw.accept(ip=f"10.0.{k // 250}.{2 + k % 250}")
             self.socks.append(Sock(fs, "accepted", len(self.socks)))
         elif kind == "m" or kind == "b":
             s = self.sock(ev[1])
